@@ -2,7 +2,7 @@
 import os, shutil
 import vlib
 
-INV = ["RoundTrip", "Stable", "NoPrefix", "CapsEnforced", "CountEnforced", "WrongTypeRejected", "TrailingIgnored", "ExportCase"]
+INV = ["RoundTrip", "Stable", "NoPrefix", "CapsEnforced", "AtCapAccepted", "CountEnforced", "WrongTypeRejected", "TrailingIgnored", "ExportCase"]
 
 
 def run(tier, seed, replay=None):
